@@ -113,6 +113,11 @@ struct Engine
             viol("C17", "invalid_after_failure", fmt("%s: size() %zu > capacity() %zu", who, n, cv.capacity()));
             return;
         }
+        if (!cv.data_begin() && cv.memory_consumption() != 0)
+        {
+            viol("C17,C05", "invalid_after_failure", fmt("%s: owns no block but memory_consumption() == %zu", who, cv.memory_consumption()));
+            return;
+        }
         size_t tracked = 0;
         for (size_t i = 0; i < n; ++i)
         {
